@@ -39,9 +39,9 @@ func poolAlphabet(maxAlive int, reset bool) func(m *model.Model) []model.Op {
 
 func init() {
 	Registry["C02"] = func(t Tier) *Check {
-		d := 5
+		d := 7
 		if t == Thorough {
-			d = 6
+			d = 8
 		}
 		u := []ct.Comp{ct.P}
 		sc := &engine.Scenario{
